@@ -1,0 +1,16 @@
+//go:build verif
+
+package rueidis
+
+// VerifLruGap, when set, is called at the points of lru.Flight / lru.Flights / adapter.Flight where no
+// lock is held between two critical sections (site 1: lru.Flight before the fast-path MoveToBack,
+// 2: lru.Flight before the slow path, 3: lru.Flights before the MoveToBack batch, 4: lru.Flights
+// before the second pass, 5: adapter.Flight before the write-locked section).  The harness runs other
+// store operations from it, which is exactly what a concurrent caller could do at that point.
+var VerifLruGap func(site int)
+
+func verifLruGap(site int) {
+	if f := VerifLruGap; f != nil {
+		f(site)
+	}
+}
